@@ -2,15 +2,34 @@
 encoding for the Lean model, the scoping oracle and the FORD-object observation.
 
 Abstract scope (plain dicts, JSON-able):
-  kind      module | program | function | subroutine
+  kind      module | submodule | program | function | subroutine
+            submodule: "ancestor": name of the ancestor module, "parent": name of the parent
+            submodule | None (`submodule (anc:parent) name`); a submodule is a scope nested in its
+            parent (host association).  A nested procedure with "mp": "subroutine" | "procedure" is
+            a separate module procedure (`module subroutine n()` / `module procedure n`) - the
+            implementation of the module procedure interface `n` declared by an ancestor.
+  mpifaces  [str]          (optional; modules, submodules) module procedure interfaces: an interface
+            block with the body `module subroutine n()`
   name      spelling at the declaration
   uses      [{"mod": str, "only": None | [[local, remote], ...], "ren": [[local, remote], ...]}]
             only = None: USE without ONLY; "ren" (optional) are then its renames `local => remote`
-  types     [{"name", "extends": str|None, "comps": [var], "binds": [{"name","target"}],
-              "deferred": [{"name","proto"}], "finals": [str]}]
+  types     [{"name", "extends": str|None, "comps": [var], "binds": [{"name","target": str|None}],
+              "deferred": [{"name","proto"}], "finals": [str],
+              "gbinds": [{"name", "specs": [str]}], "merge": bool}]
+            binds: `procedure, nopass :: name => target`; target None = `procedure, nopass :: name`
+            (the binding is to the procedure of that very name).  deferred: `procedure(proto),
+            deferred, nopass :: name` - the name is a binding name only, it refers to no procedure.
+            gbinds (optional): `generic :: name => spec, ...` - the specifics are names of BINDINGS of
+            the type (own or inherited), not of procedures of the scope.  Binding names come from PR
+            too (a binding name is local to the type and may equal a procedure name of the scope).
+            merge (optional): the specific bindings are written as one statement.
   absints   [str]          abstract interface with one subroutine of that name
   ifaces    [str]          interface block (non generic) with one interface body
-  generics  [{"name", "modprocs": [str]}]
+  generics  [{"name", "modprocs": [str], "bodies": [str]}]
+            bodies (optional): interface bodies inside the generic interface; each declares a
+            procedure of the scope (external procedure with explicit interface)
+  dummies   [{"name", "fn": bool}]  (optional; procedures) dummy procedures declared by an interface
+            body: the name is in the argument list after `args`; a local entity of the procedure
   vars      [var]          var = {"name", "vk": type|class|procedure, "proto": str}
   args      [var]  ret: var | None          (procedures)
   kids      [scope]        nested procedures in source order
@@ -83,6 +102,51 @@ def gen_renames(rng, again, deep):
     return items
 
 
+def respell(rng, n):
+    return spell(rng, n.lower())
+
+
+def gen_bindings(rng, ctr, t, p_pool=0.4, inherited=()):
+    """the type-bound part of a derived type: specific bindings (with and without `=> target`),
+    a deferred binding, generic bindings.  Binding names are taken from PR with probability
+    `p_pool` - a binding name is local to the type, so it may (and here often does) equal the name
+    of a procedure of the enclosing scope; `inherited` = binding names of the parent type (named
+    as specifics of generic bindings now and then)."""
+    taken = set()
+
+    def bname(p):
+        if rng.random() < p:
+            free = [n for n in PR if n not in taken]
+            if free:
+                n = rng.choice(free)
+                taken.add(n)
+                return spell(rng, n)
+        return ctr.next("b")
+
+    for _ in range(rng.choice([0, 0, 1, 2])):
+        if rng.random() < 0.25:
+            # `procedure :: name` - binding name = name of the procedure it is bound to
+            free = [n for n in PR_REF if n not in taken]
+            if free:
+                n = rng.choice(free)
+                taken.add(n)
+                t["binds"].append({"name": spell(rng, n), "target": None})
+                continue
+        t["binds"].append({"name": bname(p_pool), "target": spell(rng, rng.choice(PR_REF))})
+    if rng.random() < 0.3:
+        t["deferred"].append({"name": bname(max(p_pool, 0.5)), "proto": spell(rng, rng.choice(PR_REF))})
+    if len(t["binds"]) >= 2 and rng.random() < 0.3:
+        t["merge"] = True
+    own = [b["name"] for b in t["binds"]] + [b["name"] for b in t["deferred"]]
+    pool = own + [n for n in inherited if n.lower() not in {o.lower() for o in own}]
+    if pool and rng.random() < 0.4:
+        for _ in range(rng.choice([1, 1, 2])):
+            specs = [respell(rng, x) for x in rng.sample(pool, min(len(pool), rng.choice([1, 1, 2])))]
+            if rng.random() < 0.1:
+                specs.append(spell(rng, rng.choice(PR_REF)))  # possibly no binding of the type at all
+            t.setdefault("gbinds", []).append({"name": ctr.next("g"), "specs": specs})
+
+
 def gen_type(rng, ctr, name, earlier, local_all, cands=()):
     t = {"name": spell(rng, name), "extends": None, "comps": [], "binds": [], "deferred": [], "finals": []}
     if rng.random() < 0.4:
@@ -91,10 +155,7 @@ def gen_type(rng, ctr, name, earlier, local_all, cands=()):
             t["extends"] = spell(rng, rng.choice(allowed))
     for _ in range(rng.choice([0, 1, 1, 2])):
         t["comps"].append(gen_var(rng, ctr, "c"))
-    for _ in range(rng.choice([0, 0, 1, 2])):
-        t["binds"].append({"name": ctr.next("b"), "target": spell(rng, rng.choice(PR_REF))})
-    if rng.random() < 0.25:
-        t["deferred"].append({"name": ctr.next("b"), "proto": spell(rng, rng.choice(PR_REF))})
+    gen_bindings(rng, ctr, t, 0.4, PR if t["extends"] else ())
     if rng.random() < 0.25:
         if cands and rng.random() < 0.93:
             t["finals"].append(spell(rng, rng.choice(sorted(cands))))
@@ -233,16 +294,27 @@ def gen_scope(rng, ctr, kind, name, depth, nmods, visible_p, root_kind=None, ree
             other.append(n)
     for n in other:
         r = rng.random()
-        if r < 0.45:
+        if kind in ("function", "subroutine") and r < 0.3:
+            # a dummy procedure declared by an interface body: a local entity of the procedure
+            s.setdefault("dummies", []).append({"name": spell(rng, n), "fn": rng.random() < 0.4})
+        elif r < 0.5:
             s["absints"].append(spell(rng, n))
-        elif r < 0.7:
+        elif r < 0.75:
             s["ifaces"].append(spell(rng, n))
         else:
             s["generics"].append({"name": spell(rng, n), "modprocs": []})
+    if len(s.get("dummies", [])) >= 2 and rng.random() < 0.5:
+        s["dblock"] = True  # one interface block for all dummy procedures
     # a generic that has the name of a type (constructor overloading)
     if rng.random() < 0.2:
         s["generics"].append({"name": spell(rng, rng.choice(TY)), "modprocs": []})
-    local_p = {n for n in kid_names} | {g["name"].lower() for g in s["generics"]} | {n.lower() for n in s["ifaces"]}
+    # interface bodies inside a generic interface declare procedures of the scope
+    unused = [n for n in PR if n not in pnames and n != name.lower()]
+    for g in s["generics"]:
+        if unused and rng.random() < 0.3:
+            g["bodies"] = [spell(rng, unused.pop(rng.randrange(len(unused))))]
+    local_p = {n for n in kid_names} | {g["name"].lower() for g in s["generics"]} | {n.lower() for n in s["ifaces"]} \
+        | {b.lower() for g in s["generics"] for b in g.get("bodies", [])}
     for _ in range(rng.choice([0, 1, 2, 3])):
         s["vars"].append(gen_var(rng, ctr))
     if kind in ("function", "subroutine"):
@@ -413,6 +485,7 @@ def gen_rename_project(rng):
         statement and the names accessible through it"""
         r = rng.random()
         items, seen_loc = [], set()
+        avail = list(dict.fromkeys(avail))
         cands = list(avail)
         rng.shuffle(cands)
         for n in cands[:rng.choice([1, 1, 2, 3])]:
@@ -438,7 +511,7 @@ def gen_rename_project(rng):
             if not items:
                 return {"mod": spell(rng, mod), "only": None}, list(avail)
             renamed = {x for _, x in items}
-            vis = [n for n in avail if n not in renamed] + [l for l, _ in items]
+            vis = list(dict.fromkeys([n for n in avail if n not in renamed] + [l for l, _ in items]))
             return {"mod": spell(rng, mod), "only": None, "ren": [[spell(rng, l), spell(rng, x)] for l, x in items]}, vis
         return {"mod": spell(rng, mod), "only": [[spell(rng, l), spell(rng, x)] for l, x in items]}, [l for l, _ in items]
 
@@ -507,7 +580,7 @@ def gen_rename_project(rng):
         host["uses"].append(u)
         # the scope's own entity of a name that was renamed away (the usual reason for the rename)
         gone = [x.lower() for _, x in u.get("ren", [])] if u["only"] is None else [n for n in names if n not in [v.lower() for v in vis]]
-        for n in gone:
+        for n in dict.fromkeys(gone):
             if rng.random() < 0.6 and n not in [v.lower() for v in vis]:
                 if n in TY:
                     host["types"].append(_plain_type(rng, n))
@@ -691,6 +764,362 @@ def gen_block_project(rng):
     return {"units": [m0, host]}
 
 
+def _proc_refs(rng, ctr, sc, k, names, where="vars", prefix="v"):
+    pool = list(dict.fromkeys(list(names) + [rng.choice(PR_REF)]))
+    for n in rng.sample(pool, min(len(pool), k)):
+        sc[where].append({"name": ctr.next(prefix), "vk": "procedure", "proto": spell(rng, n)})
+
+
+def gen_bound_project(rng):
+    """Type-bound procedures next to same-named procedures: module m0 has procedures (and interface
+    bodies) named from PR and a chain of derived types ta <- tb <- tc whose bindings - specific
+    ones with and without `=> target`, deferred ones, generic ones - are named from PR as well;
+    extensions override bindings that a generic binding of an ancestor names, and name inherited
+    bindings in their own generic bindings.  The extensions may live in a second module (or in a
+    procedure of it) that has procedures of the same names itself."""
+    ctr = Ctr()
+    m0 = empty_scope("module", spell(rng, "m0"))
+    procs = rng.sample(PR, rng.choice([2, 3, 3]))
+    for n in procs:
+        r = rng.random()
+        if r < 0.7:
+            m0["kids"].append(empty_scope("subroutine", spell(rng, n)))
+        elif r < 0.85:
+            m0["ifaces"].append(spell(rng, n))
+        else:
+            m0["absints"].append(spell(rng, n))
+    chain = rng.sample(TY, rng.choice([1, 2, 2, 3, 3]))
+    units = [m0]
+    homes = [m0] * len(chain)
+    if len(chain) >= 2 and rng.random() < 0.4:
+        m1 = empty_scope("module", spell(rng, "m1"))
+        m1["uses"].append({"mod": spell(rng, "m0"), "only": None})
+        units.append(m1)
+        home = m1
+        if rng.random() < 0.4:
+            home = empty_scope("subroutine", spell(rng, rng.choice(PR)))
+            m1["kids"].append(home)
+            if rng.random() < 0.5:
+                # an internal procedure of the same name as a procedure of m0
+                taken = {home["name"].lower()}
+                free = [n for n in procs if n not in taken]
+                if free:
+                    home["kids"].append(empty_scope("subroutine", spell(rng, free[0])))
+        cut = rng.randrange(1, len(chain))
+        homes = [m0] * cut + [home] * (len(chain) - cut)
+    inherited = []  # binding names of the ancestors
+    for k, tn in enumerate(chain):
+        t = _plain_type(rng, tn)
+        if k > 0:
+            t["extends"] = spell(rng, chain[k - 1])
+        taken = set()
+
+        def bname(p):
+            free = [n for n in PR if n not in taken]
+            if free and rng.random() < p:
+                n = rng.choice(free)
+                taken.add(n)
+                return spell(rng, n)
+            return ctr.next("b")
+
+        # overriding bindings first (same name as an inherited binding, another target)
+        for n in inherited:
+            if rng.random() < 0.45 and n.lower() not in taken:
+                taken.add(n.lower())
+                if n.lower() in PR and rng.random() < 0.3:
+                    t["binds"].append({"name": respell(rng, n), "target": None})
+                else:
+                    t["binds"].append({"name": respell(rng, n), "target": spell(rng, rng.choice(PR_REF))})
+        for _ in range(rng.choice([0, 1, 1, 2])):
+            if rng.random() < 0.3:
+                free = [n for n in PR if n not in taken]
+                if free:
+                    n = rng.choice(free)
+                    taken.add(n)
+                    t["binds"].append({"name": spell(rng, n), "target": None})
+                    continue
+            t["binds"].append({"name": bname(0.7), "target": spell(rng, rng.choice(PR_REF))})
+        if rng.random() < (0.5 if k == 0 else 0.2):
+            t["deferred"].append({"name": bname(0.8), "proto": spell(rng, rng.choice(PR_REF))})
+        if len(t["binds"]) >= 2 and rng.random() < 0.3:
+            t["merge"] = True
+        own = [b["name"] for b in t["binds"]] + [b["name"] for b in t["deferred"]]
+        pool = own + [n for n in inherited if n.lower() not in {o.lower() for o in own}]
+        if pool and rng.random() < 0.7:
+            for _ in range(rng.choice([1, 1, 2])):
+                specs = [respell(rng, x) for x in rng.sample(pool, min(len(pool), rng.choice([1, 2, 2])))]
+                if rng.random() < 0.08:
+                    specs.append(spell(rng, rng.choice(PR_REF)))
+                t.setdefault("gbinds", []).append({"name": ctr.next("g"), "specs": specs})
+        if rng.random() < 0.3:
+            t["comps"].append({"name": ctr.next("c"), "vk": "procedure", "proto": spell(rng, rng.choice(PR_REF))})
+        homes[k]["types"].append(t)
+        inherited = list(dict.fromkeys([x.lower() for x in own] + inherited))
+    for u in units:
+        _proc_refs(rng, ctr, u, rng.choice([0, 1, 2]), procs)
+    if rng.random() < 0.3:
+        prog = empty_scope("program", "prog")
+        prog["uses"].append({"mod": spell(rng, units[-1]["name"]), "only": None})
+        t = _plain_type(rng, rng.choice([n for n in TY if n not in chain] or TY))
+        if t["name"].lower() not in chain:
+            t["extends"] = spell(rng, chain[-1])
+            pool = list(inherited)
+            if pool:
+                t.setdefault("gbinds", []).append({"name": ctr.next("g"), "specs": [respell(rng, rng.choice(pool))]})
+                if rng.random() < 0.5:
+                    t["binds"].append({"name": respell(rng, rng.choice(pool)), "target": spell(rng, rng.choice(PR_REF))})
+            prog["types"].append(t)
+        for n in rng.sample(PR, rng.choice([0, 1])):
+            prog["kids"].append(empty_scope("subroutine", spell(rng, n)))
+        units.append(prog)
+    return {"units": units}
+
+
+def gen_dummy_project(rng):
+    """Dummy procedures declared by interface bodies next to same-named procedures: m0 declares
+    procedure-like entities; a host (module / program / external procedure) declares same-named
+    ones itself or use-associates m0's; a procedure P (of the host, or the host itself) has dummy
+    procedures of those names; the names are referenced by `procedure(name)` declarations of P's
+    variables, arguments and local types, of a procedure internal to P (which may have a dummy
+    procedure of the same name again), of a sibling of P and of the host."""
+    ctr = Ctr()
+    prs = rng.sample(PR, rng.choice([1, 2, 3]))
+    m0 = empty_scope("module", spell(rng, "m0"))
+    for n in prs:
+        r = rng.random()
+        if r < 0.5:
+            m0["kids"].append(empty_scope("subroutine", spell(rng, n)))
+        elif r < 0.75:
+            m0["absints"].append(spell(rng, n))
+        elif r < 0.9:
+            m0["ifaces"].append(spell(rng, n))
+        else:
+            m0["generics"].append({"name": ctr.next("g"), "modprocs": [], "bodies": [spell(rng, n)]})
+    host_kind = rng.choice(["module", "module", "module", "program", "subroutine"])
+    hname = {"module": "m1", "program": "prog", "subroutine": rng.choice(PR)}[host_kind]
+    host = empty_scope(host_kind, spell(rng, hname))
+    host_has = set()
+    if rng.random() < 0.4:
+        host["uses"].append({"mod": spell(rng, "m0"), "only": None})
+        host_has = set(prs)
+
+    def dummies_for(sc, avoid, p_same):
+        free = [n for n in PR if n not in avoid]
+        rng.shuffle(free)
+        out = []
+        for n in free:
+            if rng.random() < (p_same if n in host_has or n in prs else 0.25):
+                out.append({"name": spell(rng, n), "fn": rng.random() < 0.4})
+        if not out and free:
+            out.append({"name": spell(rng, free[0]), "fn": rng.random() < 0.4})
+        sc["dummies"] = out
+        if len(out) >= 2 and rng.random() < 0.5:
+            sc["dblock"] = True
+        return {d["name"].lower() for d in out}
+
+    def local_type(sc):
+        t = _plain_type(rng, rng.choice(TY))
+        for _ in range(rng.choice([1, 2])):
+            t["comps"].append({"name": ctr.next("c"), "vk": "procedure", "proto": spell(rng, rng.choice(PR_REF))})
+        if rng.random() < 0.4:
+            t["deferred"].append({"name": ctr.next("b"), "proto": spell(rng, rng.choice(PR_REF))})
+        sc["types"].append(t)
+
+    if host_kind == "subroutine" and rng.random() < 0.6:
+        # the external procedure has the dummy procedures itself
+        P = host
+        avoid = {hname}
+    else:
+        pn = rng.choice([n for n in PR if n != hname])
+        P = empty_scope(rng.choice(["subroutine", "function"]), spell(rng, pn))
+        if P["kind"] == "function":
+            P["ret"] = {"name": ctr.next("r"), "vk": "integer", "proto": None}
+        host["kids"].append(P)
+        avoid = {pn}
+    # the host's own entities of the names (not those of its nested procedures)
+    for n in PR:
+        if n in host_has or n == hname or n in {k["name"].lower() for k in host["kids"]}:
+            continue
+        if rng.random() < 0.45:
+            r = rng.random()
+            if r < 0.5 and host_kind in ("module", "program") or (r < 0.5 and P is host):
+                host["kids"].append(empty_scope("subroutine", spell(rng, n)))
+            elif r < 0.7:
+                host["absints"].append(spell(rng, n))
+            elif r < 0.9:
+                host["ifaces"].append(spell(rng, n))
+            else:
+                host["generics"].append({"name": ctr.next("g"), "modprocs": [], "bodies": [spell(rng, n)]})
+            host_has.add(n)
+    if P is host:
+        avoid |= {k["name"].lower() for k in host["kids"]} | {a.lower() for a in host["absints"] + host["ifaces"]} \
+            | {b.lower() for g in host["generics"] for b in g["bodies"]}
+        host_has = set(prs) if host["uses"] else set()
+    dn = dummies_for(P, avoid, 0.7)
+    _proc_refs(rng, ctr, P, rng.choice([1, 2, 3]), PR)
+    _proc_refs(rng, ctr, P, rng.choice([0, 1]), PR, "args", "x")
+    if rng.random() < 0.4:
+        local_type(P)
+    can_nest = (P is host) or host_kind == "module"
+    if can_nest and rng.random() < 0.75:
+        taken = avoid | dn | {k["name"].lower() for k in P["kids"]}
+        free = [n for n in PR if n not in taken]
+        qn = free[0] if free else None
+        if qn:
+            Q = empty_scope(rng.choice(["subroutine", "function"]), spell(rng, qn))
+            if Q["kind"] == "function":
+                Q["ret"] = {"name": ctr.next("r"), "vk": "integer", "proto": None}
+            _proc_refs(rng, ctr, Q, rng.choice([1, 2, 3]), PR)
+            _proc_refs(rng, ctr, Q, rng.choice([0, 1]), PR, "args", "x")
+            if rng.random() < 0.35:
+                # a dummy procedure of the internal procedure, often of the same name again
+                host_has_saved = host_has
+                host_has = host_has | dn
+                dummies_for(Q, {qn}, 0.5)
+                host_has = host_has_saved
+            if rng.random() < 0.25:
+                local_type(Q)
+            P["kids"].append(Q)
+    if P is not host:
+        free = [n for n in PR if n != hname and n not in {k["name"].lower() for k in host["kids"]}
+                and n not in {a.lower() for a in host["absints"] + host["ifaces"]}
+                and n not in {b.lower() for g in host["generics"] for b in g["bodies"]} and n not in host_has]
+        if free and rng.random() < 0.6:
+            R = empty_scope("subroutine", spell(rng, free[0]))
+            _proc_refs(rng, ctr, R, rng.choice([1, 2]), PR)
+            host["kids"].append(R)
+        _proc_refs(rng, ctr, host, rng.choice([0, 1, 2]), PR)
+    return {"units": [m0, host]}
+
+
+SUB1 = ["s1", "s2"]  # names of the submodules of a module: the same under every module
+SUB2 = ["s3", "s4"]  # names of the submodules of a submodule
+
+
+def gen_sub_project(rng):
+    """Submodules in name-reuse mode: one or two modules declare types, procedures, abstract
+    interfaces and module procedure interfaces; each has submodules (named s1 / s2 under every
+    module) and these have submodules of their own (s3 / s4).  A submodule declares entities of the
+    names its ancestors already have (they must shadow the ancestors'), implements module
+    procedure interfaces of its ancestors (`module subroutine` / `module procedure`), and refers
+    to the names from its specification part, its procedures and its module procedures."""
+    ctr = Ctr()
+    mods = []
+    nm = rng.choice([1, 2, 2])
+    for i in range(nm):
+        m = empty_scope("module", spell(rng, f"m{i}"))
+        for n in rng.sample(TY, rng.choice([0, 1, 1, 2])):
+            m["types"].append(_plain_type(rng, n))
+        for n in rng.sample(PR, rng.choice([1, 2, 3])):
+            r = rng.random()
+            if r < 0.5:
+                m.setdefault("mpifaces", []).append(spell(rng, n))
+            elif r < 0.75:
+                m["kids"].append(empty_scope("subroutine", spell(rng, n)))
+            elif r < 0.9:
+                m["absints"].append(spell(rng, n))
+            else:
+                m["ifaces"].append(spell(rng, n))
+        if i > 0 and rng.random() < 0.25:
+            m["uses"].append({"mod": spell(rng, "m0"), "only": [[spell(rng, n), spell(rng, n)] for n in rng.sample(TY, 1)]})
+        _proc_refs(rng, ctr, m, rng.choice([0, 1]), PR)
+        mods.append(m)
+
+    def refs(sc, k):
+        pool = list(dict.fromkeys(rng.sample(TY_REF, 2) + rng.sample(PR_REF, 2)))
+        for n in rng.sample(pool, min(len(pool), k)):
+            if n in TY_REF:
+                sc["vars"].append({"name": ctr.next("v"), "vk": rng.choice(["type", "class"]), "proto": spell(rng, n)})
+            else:
+                sc["vars"].append({"name": ctr.next("v"), "vk": "procedure", "proto": spell(rng, n)})
+
+    implemented = set()  # (module, name) of the module procedure interfaces that have an implementation
+
+    def make_sub(m, parent, name):
+        mod = m["name"].lower()
+        sub = empty_scope("submodule", spell(rng, name))
+        sub["ancestor"] = spell(rng, mod)
+        sub["parent"] = spell(rng, parent["name"].lower()) if parent is not None else None
+        hosts = [m] + ([parent] if parent is not None else [])
+        avail = [x.lower() for h in hosts for x in h.get("mpifaces", [])]
+        host_p = {x.lower() for h in hosts for x in h.get("mpifaces", []) + h["absints"] + h["ifaces"]} | \
+            {k["name"].lower() for h in hosts for k in h["kids"]}
+        host_t = {t["name"].lower() for h in hosts for t in h["types"]}
+        taken = set()
+        # implementations of module procedure interfaces of the ancestors
+        for n in avail:
+            if (mod, n) not in implemented and n not in taken and rng.random() < 0.6:
+                implemented.add((mod, n))
+                taken.add(n)
+                k = empty_scope("subroutine", spell(rng, n))
+                k["mp"] = rng.choice(["subroutine", "subroutine", "procedure"])
+                refs(k, rng.choice([0, 1, 2]))
+                if rng.random() < 0.2:
+                    k["types"].append(_plain_type(rng, rng.choice(TY)))
+                sub["kids"].append(k)
+        # local entities, mostly of names the ancestors have as well
+        for n in TY:
+            if rng.random() < (0.5 if n in host_t else 0.15):
+                t = _plain_type(rng, n)
+                if rng.random() < 0.3:
+                    others = [x for x in TY_REF if x != n and x not in {tt["name"].lower() for tt in sub["types"]} | {n}]
+                    if others:
+                        t["extends"] = spell(rng, rng.choice(others))
+                if rng.random() < 0.4:
+                    t["comps"].append(gen_var(rng, ctr, "c"))
+                if rng.random() < 0.3:
+                    t["binds"].append({"name": ctr.next("b"), "target": spell(rng, rng.choice(PR_REF))})
+                sub["types"].append(t)
+        for n in PR:
+            if n in taken:
+                continue
+            if rng.random() < (0.4 if n in host_p else 0.12):
+                taken.add(n)
+                r = rng.random()
+                if r < 0.5:
+                    k = empty_scope(rng.choice(["subroutine", "function"]), spell(rng, n))
+                    if k["kind"] == "function":
+                        k["ret"] = {"name": ctr.next("r"), "vk": "integer", "proto": None}
+                    refs(k, rng.choice([0, 1, 2]))
+                    sub["kids"].append(k)
+                elif r < 0.7:
+                    sub["absints"].append(spell(rng, n))
+                elif r < 0.85:
+                    sub["ifaces"].append(spell(rng, n))
+                else:
+                    sub.setdefault("mpifaces", []).append(spell(rng, n))
+        if rng.random() < 0.2 and len(mods) > 1:
+            other = rng.choice([x for x in mods if x is not m])
+            r = rng.random()
+            if r < 0.5:
+                sub["uses"].append({"mod": spell(rng, other["name"].lower()), "only": None})
+            else:
+                pick = rng.sample(TY + PR, 2)
+                sub["uses"].append({"mod": spell(rng, other["name"].lower()), "only": [[spell(rng, n), spell(rng, n)] for n in pick]})
+        refs(sub, rng.choice([1, 2, 3, 4]))
+        return sub
+
+    subs1, subs2 = [], []
+    for m in mods:
+        for sn in rng.sample(SUB1, rng.choice([1, 1, 2])):
+            subs1.append((m, make_sub(m, None, sn)))
+    used2 = set()
+    for m, s1 in subs1:
+        if rng.random() < 0.6:
+            free = [x for x in SUB2 if (m["name"].lower(), x) not in used2]
+            if free:
+                sn = rng.choice(free)
+                used2.add((m["name"].lower(), sn))
+                subs2.append((m, make_sub(m, s1, sn)))
+    units = mods + [s for _, s in subs1] + [s for _, s in subs2]
+    if rng.random() < 0.3:
+        prog = empty_scope("program", "prog")
+        prog["uses"].append({"mod": spell(rng, mods[-1]["name"].lower()), "only": None})
+        refs(prog, 2)
+        units.append(prog)
+    return {"units": units}
+
+
 # ------------------------------------------------------------------ rendering
 
 def render_var(v, extra=""):
@@ -717,6 +1146,10 @@ def render_use(u, q, out):
         out.append(f"{q}use {u['mod']}, only: {', '.join(items)}")
 
 
+def _bind_item(b):
+    return b["name"] if b["target"] is None else f"{b['name']} => {b['target']}"
+
+
 def render_type(t, q, out):
     attrs = ""
     if t["deferred"]:
@@ -726,15 +1159,27 @@ def render_type(t, q, out):
     out.append(f"{q}type{attrs} :: {t['name']}")
     for c in t["comps"]:
         out.append(f"{q}  {render_var(c, ', nopass')}")
-    if t["binds"] or t["deferred"] or t["finals"]:
+    if t["binds"] or t["deferred"] or t["finals"] or t.get("gbinds"):
         out.append(f"{q}contains")
-        for b in t["binds"]:
-            out.append(f"{q}  procedure, nopass :: {b['name']} => {b['target']}")
+        if t.get("merge") and len(t["binds"]) >= 2:
+            out.append(f"{q}  procedure, nopass :: " + ", ".join(_bind_item(b) for b in t["binds"]))
+        else:
+            for b in t["binds"]:
+                out.append(f"{q}  procedure, nopass :: {_bind_item(b)}")
         for b in t["deferred"]:
             out.append(f"{q}  procedure({b['proto']}), deferred, nopass :: {b['name']}")
+        for g in t.get("gbinds", []):
+            out.append(f"{q}  generic :: {g['name']} => {', '.join(g['specs'])}")
         for f in t["finals"]:
             out.append(f"{q}  final :: {f}")
     out.append(f"{q}end type")
+
+
+def _render_body(d, q, out):
+    if d["fn"]:
+        out += [f"{q}  function {d['name']}() result(r0)", f"{q}    integer :: r0", f"{q}  end function"]
+    else:
+        out += [f"{q}  subroutine {d['name']}()", f"{q}  end subroutine"]
 
 
 def render_ifaces(s, q, out):
@@ -742,6 +1187,19 @@ def render_ifaces(s, q, out):
         out += [f"{q}abstract interface", f"{q}  subroutine {a}()", f"{q}  end subroutine", f"{q}end interface"]
     for a in s["ifaces"]:
         out += [f"{q}interface", f"{q}  subroutine {a}()", f"{q}  end subroutine", f"{q}end interface"]
+    for a in s.get("mpifaces", []):
+        out += [f"{q}interface", f"{q}  module subroutine {a}()", f"{q}  end subroutine", f"{q}end interface"]
+    ds = s.get("dummies", [])
+    if ds and s.get("dblock"):
+        out.append(f"{q}interface")
+        for d in ds:
+            _render_body(d, q, out)
+        out.append(f"{q}end interface")
+    else:
+        for d in ds:
+            out.append(f"{q}interface")
+            _render_body(d, q, out)
+            out.append(f"{q}end interface")
 
 
 def render_block(b, out, q):
@@ -762,10 +1220,16 @@ def render_block(b, out, q):
 def render_scope(s, out, ind=0):
     p = "  " * ind
     k = s["kind"]
-    if k == "function":
-        out.append(f"{p}function {s['name']}({', '.join(a['name'] for a in s['args'])}) result({s['ret']['name']})")
+    arglist = ", ".join([a["name"] for a in s["args"]] + [d["name"] for d in s.get("dummies", [])])
+    mp = s.get("mp")
+    if mp == "procedure":
+        out.append(f"{p}module procedure {s['name']}")
+    elif k == "function":
+        out.append(f"{p}function {s['name']}({arglist}) result({s['ret']['name']})")
     elif k == "subroutine":
-        out.append(f"{p}subroutine {s['name']}({', '.join(a['name'] for a in s['args'])})")
+        out.append(f"{p}{'module ' if mp else ''}subroutine {s['name']}({arglist})")
+    elif k == "submodule":
+        out.append(f"{p}submodule ({s['ancestor']}{':' + s['parent'] if s.get('parent') else ''}) {s['name']}")
     else:
         out.append(f"{p}{k} {s['name']}")
     q = p + "  "
@@ -776,7 +1240,9 @@ def render_scope(s, out, ind=0):
     render_ifaces(s, q, out)
     for g in s["generics"]:
         out.append(f"{q}interface {g['name']}")
-        kw = "module procedure" if k == "module" else "procedure"
+        kw = "module procedure" if k in ("module", "submodule") else "procedure"
+        for b in g.get("bodies", []):
+            out += [f"{q}  subroutine {b}()", f"{q}  end subroutine"]
         for mp in g["modprocs"]:
             out.append(f"{q}  {kw} {mp}")
         out.append(f"{q}end interface")
@@ -792,7 +1258,7 @@ def render_scope(s, out, ind=0):
         out.append(f"{p}contains")
         for c in s["kids"]:
             render_scope(c, out, ind + 1)
-    out.append(f"{p}end {k}")
+    out.append(f"{p}end {'procedure' if mp == 'procedure' else k}")
 
 
 def render_project(P, rng):
@@ -827,14 +1293,61 @@ class Flat:
         self.slots = []
         self.scopes = []
         self.tokens = []
+        # type-bound part of every derived type outside BLOCKs, in source order:
+        # {"ent", "scope", "ti", "ext": slot id of the parent-type reference | None,
+        #  "own": {lower binding name: binding entity}, "gslots": [slot id of a generic's specific]}
+        self.types = []
+        # submodules: {"scope", "ent", "anc_slot", "par_slot", "pairs": [slot ids], "anc": lower name,
+        #               "parent": lower name | None}
+        self.subs = []
+        self.same = {}  # implementation of a separate module procedure -> its interface (one procedure)
         for ui, u in enumerate(P["units"]):
+            e = self.new_ent("unit" if u["kind"] in ("module", "program", "submodule") else "extproc", u["name"], [])
+            if u["kind"] == "submodule":
+                self.sub_unit(u, e)
+                continue
             self.tokens.append("M" if u["kind"] == "module" else "N")
-            e = self.new_ent("unit" if u["kind"] in ("module", "program") else "extproc", u["name"], [])
             self.scope(u, e, None, [], None)
 
     def new_ent(self, cls, name, path):
         self.ents.append({"cls": cls, "name": name.lower(), "path": list(path)})
         return len(self.ents) - 1
+
+    def canon(self, e):
+        """an entity up to `implementation = interface` of a separate module procedure"""
+        return self.same.get(e, e) if isinstance(e, int) else e
+
+    def sub_unit(self, u, e):
+        """a submodule: S <ancestor> <parent | -> <slot of the ancestor reference> <slot of the parent
+        reference> <n> (<slot> <name>)* followed by the scope; the n pairs are the separate module
+        procedures it implements (slot = the interface the implementation is paired with)"""
+        sidx = len(self.scopes)
+        head = len(self.tokens)
+        self.scope(u, e, None, [], None)
+        body = self.tokens[head:]
+        del self.tokens[head:]
+        rec = self.scopes[sidx]
+        info = {"scope": sidx, "ent": e, "anc": u["ancestor"].lower(), "parent": u["parent"].lower() if u.get("parent") else None,
+                "pairs": []}
+        info["anc_slot"] = self.new_slot(sidx, "sm", "e", u["ancestor"], "ancestor module", ("ancestor",))
+        info["par_slot"] = self.new_slot(sidx, "sp", "e", u.get("parent") or "-", "parent submodule", ("parentsub",))
+        for ki, k in enumerate(u["kids"]):
+            if k.get("mp"):
+                i = self.new_slot(sidx, "mp", "e", k["name"], f"separate module procedure {k['name'].lower()} interface", ("mpair", ki))
+                info["pairs"].append(i)
+        self.subs.append(info)
+        self.tokens += ["S", u["ancestor"], u.get("parent") or "-", str(info["anc_slot"]), str(info["par_slot"]), str(len(info["pairs"]))]
+        for i in info["pairs"]:
+            self.tokens += [str(i), self.slots[i]["name"]]
+        self.tokens += body
+
+    def sub_tokens(self, order=None):
+        """third section of the encoding: I <n> <entities that are interface bodies (candidates for the
+        pairing of a separate module procedure)>*  O <m> <submodule entities in the order of FORD's
+        project list>*"""
+        pairable = [k for k, d in enumerate(self.ents) if d["cls"] in ("iface", "mpiface", "ifbody")]
+        order = [x["ent"] for x in self.subs] if order is None else list(order)
+        return ["I", str(len(pairable))] + [str(x) for x in pairable] + ["O", str(len(order))] + [str(x) for x in order]
 
     def new_slot(self, sidx, kind, phase, name, what, get, optional=False):
         self.slots.append({"kind": kind, "phase": phase, "name": name, "scope": sidx, "what": what, "get": get})
@@ -842,9 +1355,31 @@ class Flat:
         self.scopes[sidx]["slots"].append(i)
         if optional:
             self.slots[i]["optional"] = True
-        else:
+        elif kind not in ("gb", "sm", "sp", "mp"):
+            # (the specifics of generic bindings are looked up in the bindings of the type, not in
+            #  the tables of the scope: they are encoded with the type records, `type_tokens`; the
+            #  references of a submodule to its ancestors are encoded in its header, `sub_unit`)
             self.tokens += ["X", str(i), kind, phase, name]
         return i
+
+    def type_tokens(self, order=None):
+        """encoding of the type-bound parts for the model, in the order in which the types are
+        correlated (`order` = type entities as observed; default: source order):
+        T <type ent> <slot id of the parent reference | -> <n> (<binding name> <binding ent>)*
+          <m> (<slot id> <specific name>)*"""
+        recs = list(self.types)
+        if order is not None:
+            pos = {e: k for k, e in enumerate(order)}
+            recs.sort(key=lambda r: pos.get(r["ent"], len(pos)))
+        out = []
+        for r in recs:
+            out += ["T", str(r["ent"]), "-" if r["ext"] is None else str(r["ext"]), str(len(r["own"]))]
+            for n, e in r["own"].items():
+                out += [n, str(e)]
+            out.append(str(len(r["gslots"])))
+            for i in r["gslots"]:
+                out += [str(i), self.slots[i]["name"]]
+        return out
 
     def var_slot(self, sidx, v, phase, what, get, optional=False):
         if v["vk"] in ("type", "class"):
@@ -927,21 +1462,49 @@ class Flat:
             e = self.new_ent("iface", a, spath)
             rec["local"]["p"][a.lower()] = e
             self.tokens += ["D", "p", a, str(e)]
+        for a in s.get("mpifaces", []):
+            e = self.new_ent("mpiface", a, spath)
+            rec["local"]["p"][a.lower()] = e
+            self.tokens += ["D", "p", a, str(e)]
+        for d in s.get("dummies", []):
+            # a dummy procedure declared by an interface body is a local entity of the procedure
+            e = self.new_ent("dummy", d["name"], spath)
+            rec["local"]["p"][d["name"].lower()] = e
+            self.tokens += ["D", "p", d["name"], str(e)]
         for g in s["generics"]:
             e = self.new_ent("generic", g["name"], spath)
             rec["local"]["p"][g["name"].lower()] = e
             self.tokens += ["D", "p", g["name"], str(e)]
+            for b in g.get("bodies", []):
+                # an interface body inside a generic interface declares a procedure of the scope
+                e = self.new_ent("ifbody", b, spath)
+                rec["local"]["p"][b.lower()] = e
+                self.tokens += ["D", "p", b, str(e)]
         # slots -------------------------------------------------------------
         for ti, t in enumerate(s["types"]):
             tn = t["name"].lower()
+            trec = {"ent": rec["local"]["t"][tn], "scope": sidx, "ti": ti, "ext": None, "own": {}, "gslots": []}
+            self.types.append(trec)
             if t["extends"]:
-                self.new_slot(sidx, "ty", "e", t["extends"], f"type {tn} extends", ("extends", ti))
+                trec["ext"] = self.new_slot(sidx, "ty", "e", t["extends"], f"type {tn} extends", ("extends", ti))
             for ci, c in enumerate(t["comps"]):
                 self.var_slot(sidx, c, "e", f"type {tn} component {c['name']}", ("comp", ti, ci))
             for bi, b in enumerate(t["binds"]):
-                self.new_slot(sidx, "pr", "e", b["target"], f"type {tn} binding {b['name']}", ("bind", ti, b["name"]))
+                trec["own"][b["name"].lower()] = self.new_ent("binding", b["name"], spath + [tn])
+                # `procedure :: name` is bound to the procedure of that name
+                self.new_slot(sidx, "pr", "e", b["target"] if b["target"] is not None else b["name"],
+                              f"type {tn} binding {b['name']}", ("bind", ti, b["name"]))
             for bi, b in enumerate(t["deferred"]):
+                trec["own"][b["name"].lower()] = self.new_ent("binding", b["name"], spath + [tn])
                 self.new_slot(sidx, "pa", "e", b["proto"], f"type {tn} deferred binding {b['name']} interface", ("defer", ti, b["name"]))
+                # the name of a deferred binding is a binding name only: it refers to no procedure
+                self.new_slot(sidx, "bn", "e", b["name"], f"type {tn} deferred binding {b['name']} target", ("defbind", ti, b["name"]))
+            for gi, g in enumerate(t.get("gbinds", [])):
+                for k, sp in enumerate(g["specs"]):
+                    i = self.new_slot(sidx, "gb", "e", sp, f"type {tn} generic binding {g['name']} specific {k}",
+                                      ("gspec", ti, g["name"], k))
+                    self.slots[i]["type"] = len(self.types) - 1
+                    trec["gslots"].append(i)
             for fi, f in enumerate(t["finals"]):
                 i = self.new_slot(sidx, "pr", "e", f, f"type {tn} final", ("final", ti, fi))
                 self.slots[i]["must"] = True
@@ -1012,17 +1575,54 @@ def oracle(F: Flat):
         if rec["parent"] is None and rec["node"]["kind"] == "module":
             exports[rec["node"]["name"].lower()] = frames[sidx]
 
+    # a submodule is a scope nested in its parent: the submodule `parent` OF ITS ANCESTOR MODULE
+    # (`submodule (anc:parent) name`), or the ancestor module itself
+    mod_scope = {rec["node"]["name"].lower(): k for k, rec in enumerate(F.scopes)
+                 if rec["parent"] is None and rec["node"]["kind"] == "module"}
+    sub_scope = {(x["anc"], F.scopes[x["scope"]]["node"]["name"].lower()): x["scope"] for x in F.subs}
+    for x in F.subs:
+        F.scopes[x["scope"]]["host"] = sub_scope.get((x["anc"], x["parent"])) if x["parent"] else mod_scope.get(x["anc"])
+
     def chain(sidx):
         while sidx is not None:
             yield sidx
-            sidx = F.scopes[sidx]["parent"]
+            sidx = F.scopes[sidx].get("host", F.scopes[sidx]["parent"])
 
+    F.chain = chain
     exp = {}
     where = {}
+    ambig = {}  # slot -> the candidates of an ambiguous (not Fortran) reference
+    for x in F.subs:
+        rec = F.scopes[x["scope"]]
+        exp[x["anc_slot"]] = F.scopes[mod_scope[x["anc"]]]["ent"] if x["anc"] in mod_scope else None
+        ps = sub_scope.get((x["anc"], x["parent"])) if x["parent"] else None
+        exp[x["par_slot"]] = F.scopes[ps]["ent"] if ps is not None else None
+        for i in x["pairs"]:
+            # the separate module procedure implements the module procedure interface of that name
+            # it accesses by host association (declared by an ancestor)
+            n = F.slots[i]["name"].lower()
+            res = None
+            host = rec.get("host")
+            for k in (chain(host) if host is not None else ()):
+                es = frames[k]["p"].get(n, set())
+                if es:
+                    e = next(iter(es))
+                    res = e if len(es) == 1 and F.ents[e]["cls"] == "mpiface" else SKIP
+                    break
+            exp[i] = res
+            if isinstance(res, int):
+                F.same[rec["local"]["p"][n]] = res
     for i, sl in enumerate(F.slots):
         n = sl["name"].lower()
         found = None
         at = None
+        if sl["kind"] == "bn":
+            # a deferred binding has no implementation in its type: its name is a binding name,
+            # not a reference to a procedure - whatever procedures of that name are visible
+            exp[i] = None
+            continue
+        if sl["kind"] in ("gb", "sm", "sp", "mp"):
+            continue  # gb: second pass (needs the parent types); the others: done above
         if sl.get("ctor"):
             fr = frames[sl["scope"]]
             es = fr["p"].get(n, set()) | fr["a"].get(n, set())
@@ -1044,33 +1644,130 @@ def oracle(F: Flat):
             exp[i] = None
         elif len(found) > 1:
             exp[i] = SKIP
+            ambig[i] = set(found)
         else:
             e = next(iter(found))
             cls = F.ents[e]["cls"]
             if sl["kind"] == "pa" and cls == "generic":
                 exp[i] = SKIP
-            elif sl["kind"] == "pr" and cls in ("absint", "generic"):
+            elif sl["kind"] == "pr" and cls in ("absint", "generic", "dummy"):
+                # (a dummy procedure cannot be a binding target, finaliser or specific procedure)
                 exp[i] = SKIP
             else:
                 exp[i] = e
                 where[i] = at
+    # the specifics of a generic binding are names of bindings of the type: its own binding of
+    # that name, else the one it inherits from the nearest ancestor type that has it (the parent
+    # type is the entity the `extends` reference designates)
+    by_ent = {r["ent"]: r for r in F.types}
+    for r in F.types:
+        for i in r["gslots"]:
+            n = F.slots[i]["name"].lower()
+            # no binding of that name along the whole chain: the name designates nothing among the
+            # bindings of the type and stays text - procedures of the scope are another class of names
+            cur, seen, res = r, set(), None
+            while True:
+                if cur is None or cur["ent"] in seen:
+                    res = SKIP  # the parent is not a type of the project / circular: unknown
+                    break
+                seen.add(cur["ent"])
+                if n in cur["own"]:
+                    res = cur["own"][n]
+                    break
+                if cur["ext"] is None:
+                    break
+                pe = exp.get(cur["ext"])
+                if pe is None:
+                    break  # the parent type has no visible declaration: nothing is inherited
+                if pe == SKIP:
+                    res = SKIP  # ambiguous parent reference (not Fortran)
+                    break
+                cur = by_ent.get(pe)
+            exp[i] = res
+    # the parent type Fortran designates for every type (entity id or None)
+    F.type_parent = {r["ent"]: (exp.get(r["ext"]) if r["ext"] is not None and exp.get(r["ext"]) not in (None, SKIP) else None)
+                     for r in F.types}
+    # ... and, for the classification of failing slots, every candidate of an ambiguous parent reference
+    F.type_parents = {r["ent"]: ({F.type_parent[r["ent"]]} if F.type_parent[r["ent"]] is not None
+                                 else set(ambig.get(r["ext"], ()))) for r in F.types}
     return exp, where, frames
 
 
-def classify(F: Flat, frames, where, i, observed, block_use=True):
+def classify(F: Flat, frames, where, i, observed, block_use=True, shared=True, sub_local=True, sub_parent=True,
+             alias=True, host_over_local=True):
+    """the flags say which defect switches the model variant of the tree has on: a class whose switch
+    is off is not considered"""
+    cls = _classify(F, frames, where, i, observed, block_use, shared, sub_local, alias, host_over_local)
+    if cls is None and sub_parent:
+        # (7) the parent submodule is looked up by its name alone: a submodule on the host chain of
+        #     the reference names a parent whose name submodules of two different ancestor modules bear
+        for k in F.chain(F.slots[i]["scope"]):
+            if F.scopes[k]["node"].get("kind") == "submodule":
+                x = next(y for y in F.subs if y["scope"] == k)
+                if x["parent"] and len({y["anc"] for y in F.subs
+                                        if F.scopes[y["scope"]]["node"]["name"].lower() == x["parent"]}) >= 2:
+                    return "C07-parent-submodule-found-by-name-only"
+    return cls
+
+
+def _classify(F: Flat, frames, where, i, observed, block_use=True, shared=True, sub_local=True, alias=True,
+              host_over_local=True):
     """Known defect class of a failing slot (decidable on the abstract project), or None.
     block_use = False: class (4) is not considered (the tree does not file block-local USE
-    statements in the enclosing unit)."""
+    statements in the enclosing unit); shared = False: class (5) is not considered; sub_local /
+    sub_parent = False: classes (6) / (7) are not considered."""
     sl = F.slots[i]
     n = sl["name"].lower()
-    anc = set()
-    s = sl["scope"]
-    while s is not None:
-        anc.add(s)
-        s = F.scopes[s]["parent"]
+    hosts = list(F.chain(sl["scope"]))
+    subs_on_chain = [k for k in hosts if F.scopes[k]["node"].get("kind") == "submodule"]
+    if subs_on_chain and sl["kind"] in ("ty", "pr", "pa"):
+        # (6) the tables of the parent (ancestor module / parent submodule) are `update`d into the
+        #     submodule's: a submodule frame on the host chain has the name, a frame farther out has
+        #     it too, and FORD's slot holds the farther one's entity
+        if sub_local and observed is not None:
+            spaces = ["t"] if sl["kind"] == "ty" else ["p"] if sl["kind"] == "pr" else ["p", "a"]
+            for pos, k in enumerate(hosts):
+                if k in subs_on_chain and any(n in frames[k][ns] for ns in spaces):
+                    for far in hosts[pos + 1:]:
+                        if any(observed in frames[far][ns].get(n, ()) for ns in spaces):
+                            return "C07-submodule-ancestor-overrides-local"
+    if sl["kind"] == "mp" and sub_local:
+        # (6) for the interface of a separate module procedure: a submodule on the host chain of the
+        #     implementing submodule declares the interface, a scope farther out has the name as a
+        #     procedure too, and FORD pairs the implementation with that one (or, if that one is not
+        #     an interface body, with nothing)
+        for pos, k in enumerate(hosts):
+            if pos >= 1 and k in subs_on_chain and n in frames[k]["p"]:
+                for far in hosts[pos + 1:]:
+                    if n in frames[far]["p"] and (observed is None or observed in frames[far]["p"][n]):
+                        return "C07-submodule-ancestor-overrides-local"
+    if sl["kind"] in ("sm", "sp", "mp"):
+        return None
+    if sl["kind"] == "gb":
+        # (5) the generic binding is inherited by an extension of its type (a descendant through the
+        #     parent types Fortran designates - where a parent reference is ambiguous, through any of
+        #     its candidates) that declares a binding of the specific's name itself, and FORD's
+        #     slot holds exactly that binding of the extension
+        if shared and observed is not None:
+            tr = F.types[sl["type"]]
+            for d in F.types:
+                if d is not tr and d["own"].get(n) == observed:
+                    todo, seen = list(F.type_parents.get(d["ent"], ())), set()
+                    while todo:
+                        a = todo.pop()
+                        if a in seen:
+                            continue
+                        seen.add(a)
+                        if a == tr["ent"]:
+                            return "C07-inherited-generic-binding-shares-specifics-list"
+                        todo += list(F.type_parents.get(a, ()))
+        return None
+    if sl["kind"] == "bn":
+        return None
+    anc = set(hosts)
     unit = F.scopes[sl["scope"]]["unit"]
     chain_frames = [s for s in anc]
-    depth = {s: len(F.scopes[s]["path"]) for s in anc}
+    depth = {s: len(hosts) - k for k, s in enumerate(hosts)}  # innermost = largest
     # (4) a USE statement inside a BLOCK construct is filed in the enclosing code unit: FORD's entity
     #     is one that a BLOCK which does not enclose the reference, in the execution part of a code
     #     unit that does enclose it, use-associates under that name
@@ -1083,7 +1780,7 @@ def classify(F: Flat, frames, where, i, observed, block_use=True):
                     return "C07-block-use-leaks-into-enclosing-unit"
     # (1) shared dict objects: a type / abstract interface of that name is declared in or
     #     use-associated into a scope of the same top-level unit that does not enclose the reference
-    if sl["kind"] in ("ty", "pa"):
+    if sl["kind"] in ("ty", "pa") and alias:
         ns = "t" if sl["kind"] == "ty" else "a"
         for k, rec in enumerate(F.scopes):
             if rec["unit"] == unit and k not in anc and n in frames[k][ns]:
@@ -1097,7 +1794,7 @@ def classify(F: Flat, frames, where, i, observed, block_use=True):
             for s in holders:
                 # the innermost frame that has the name as a procedure does not hold FORD's entity
                 # (the same entity use-associated at two levels is not a shadowing failure)
-                if s != inner and observed is not None and observed in frames[s]["p"][n] \
+                if host_over_local and s != inner and observed is not None and observed in frames[s]["p"][n] \
                         and observed not in frames[inner]["p"][n]:
                     return "C07-host-procedure-beats-local"
         # (3) all_procs is consulted before all_absinterfaces whatever the nesting: an abstract
